@@ -20,7 +20,7 @@ CONSTANTS
   FirstCfgs = {0}
   StartCfgs = {0, 1}
   CfgKinds = {"value"}
-  Vias = {"set", "read"}
+  Vias = {"set"}
 CONSTRAINT Bound
 INVARIANT Emit1
 CHECK_DEADLOCK FALSE
